@@ -21,6 +21,7 @@ import random
 import re
 import sys
 import threading
+from textwrap import indent
 import uuid
 from ast import literal_eval
 from functools import lru_cache
@@ -674,7 +675,13 @@ class LLMGenerationActions:
                 lines = result.split("\n")
                 while True:
                     try:
-                        parse_colang_file("dynamic.co", content="\n".join(lines))
+                        # We parse the lines exactly as the runtime will, i.e., as the body of a flow
+                        parsed_data = parse_colang_file(
+                            "dynamic.co",
+                            content="define flow dynamic_flow:\n"
+                            + indent("\n".join(lines), "  "),
+                        )
+                        assert len(parsed_data["flows"]) == 1
                         break
                     except Exception as e:
                         # If we could not parse the flow on the last line, we return a general response
